@@ -56,12 +56,80 @@ def set_re(rr, Re, T=650.0):
     return mfr
 
 
+def straddle_dims(rng, n_ring, wire=True):
+    """bundles whose P/D and W/D lie on opposite sides of 1.1, the break of the Cheng-Todreas bare-rod polynomials: a tight
+    lattice sitting loosely in its duct, or a loose lattice close to the wall"""
+    D = rng.uniform(0.004, 0.012)
+    if rng.random() < 0.6:
+        pd, wd = rng.uniform(1.03, 1.1), rng.uniform(1.12, 1.4)
+    else:
+        pd, wd = rng.uniform(1.12, 1.35), rng.uniform(1.03, 1.1)
+    P, W = pd * D, wd * D
+    Dw = 0.85 * min(P - D, W - D) if wire else 0.0
+    ftf_in = math.sqrt(3) * (n_ring - 1) * P + D + 2 * (W - D)
+    return dict(num_rings=n_ring, pin_pitch=P, pin_diameter=D, wire_pitch=rng.uniform(0.1, 0.4) if wire else 0.0, wire_diameter=Dw,
+                clad_thickness=D * 0.08, duct_ftf=[ftf_in, ftf_in + 0.006])
+
+
+def bare_rod_separation(ctx, rng, n):
+    """Cheng-Todreas bare-rod friction constants: the interior constant is a function of P/D only, the edge and corner constants
+    of W/D only (each subchannel type is correlated with its own pitch).  Two bare bundles with the same W and other P must have
+    the same edge / corner constants, two with the same P and other W the same interior constant - on both sides of the break of
+    the polynomials at 1.1."""
+    for _ in range(n):
+        D = rng.uniform(0.004, 0.012)
+        n_ring = rng.choice([2, 3, 5])
+        for ff in ('CTD', 'UCTD'):
+            vals = {}
+            pds = [rng.uniform(1.03, 1.095), rng.uniform(1.105, 1.35)]
+            wds = [rng.uniform(1.03, 1.095), rng.uniform(1.105, 1.4)]
+            for pd in pds:
+                for wd in wds:
+                    P, W = pd * D, wd * D
+                    f_in = math.sqrt(3) * (n_ring - 1) * P + D + 2 * (W - D)
+                    dims = dict(num_rings=n_ring, pin_pitch=P, pin_diameter=D, wire_pitch=0.0, wire_diameter=0.0,
+                                clad_thickness=D * 0.08, duct_ftf=[f_in, f_in + 0.006])
+                    try:
+                        rr = du.make_rr(dims, corr=dict(corr_friction=ff, corr_flowsplit=ff, corr_mixing=ff))
+                    except SystemExit:
+                        continue
+                    vals[(pd, wd)] = {k: np.array(v, dtype=float) for k, v in rr.corr_constants['ff']['Cf_sc'].items()}
+                    ctx.evals += 1
+            for regime in ('laminar', 'turbulent'):
+                for pd in pds:
+                    for wd in wds:
+                        v = vals.get((pd, wd))
+                        if v is None:
+                            continue
+                        if not (np.all(np.isfinite(v[regime])) and np.all(v[regime] > 0)):
+                            ctx.violation("c12-friction-constant-sign:" + ff, "%s bare-rod friction constants %s at P/D = %.3f, W/D = %.3f "
+                                          "(%s) are not positive" % (ff, v[regime], pd, wd, regime), pd=pd, wd=wd, D=D, n_ring=n_ring)
+                            return
+                for wd in wds:
+                    a, b = vals.get((pds[0], wd)), vals.get((pds[1], wd))
+                    if a is not None and b is not None and np.abs(a[regime][1:] - b[regime][1:]).max() > 1e-9 * np.abs(a[regime][1:]).max():
+                        ctx.violation("c12-friction-constant-pitch:" + ff, "%s bare-rod %s constants of the edge/corner subchannels at "
+                                      "W/D = %.3f change with the pin pitch: %s at P/D = %.3f, %s at P/D = %.3f"
+                                      % (ff, regime, wd, a[regime][1:], pds[0], b[regime][1:], pds[1]), wd=wd, pds=pds, D=D, n_ring=n_ring)
+                        return
+                for pd in pds:
+                    a, b = vals.get((pd, wds[0])), vals.get((pd, wds[1]))
+                    if a is not None and b is not None and abs(a[regime][0] - b[regime][0]) > 1e-9 * abs(a[regime][0]):
+                        ctx.violation("c12-friction-constant-pitch:" + ff, "%s bare-rod %s constant of the interior subchannels at "
+                                      "P/D = %.3f changes with the edge pitch" % (ff, regime, pd), pd=pd, wds=wds, D=D, n_ring=n_ring)
+                        return
+    ctx.count("bare_rod_separation_sets", n)
+
+
 def oracle(ctx, rng, n_geom):
     combos = list(itertools.product(FF, FS, MIX))
     failures = {}
     for gi_ in range(n_geom):
         n_ring = rng.choice([2, 3, 5, 8, 12])
         dims = du.bundle_dims(rng, n_ring, 1)
+        if gi_ % 3 == 1:
+            dims = straddle_dims(rng, n_ring)
+            ctx.count("geometries_pd_wd_across_1.1")
         if rng.random() < 0.3:
             dims['wire_pitch'] = rng.choice([0.05, 0.6])        # H/D outside the correlated range
         picks = combos if (ctx.thorough or gi_ == 0) else rng.sample(combos, 30)
@@ -280,6 +348,7 @@ def run(ctx):
     if ok:
         ctx.prove("Dassh.Props.C12")
     oracle(ctx, rng, 6 if ctx.thorough else 2)
+    bare_rod_separation(ctx, rng, 12 if ctx.thorough else 3)
     del FS_REQ[:]
     gradient_oracle(ctx, rng, 12 if ctx.thorough else 3)
     from harness import modelio
